@@ -397,6 +397,17 @@ impl Property for C11 {
     }
     fn run_tape(&mut self, words: &[u32]) -> Outcome {
         let mut tape = Tape::new(words);
+        if tape.chance(1, 400) {
+            // a string literal typed over several lines into `ucg repl`
+            let n = 1 + tape.choice(4);
+            let mut lines: Vec<String> = vec![];
+            for _ in 0..=n {
+                let pre = " ".repeat(tape.choice(3));
+                let post = *tape.pick(&["", " ", "  ", "\t"]);
+                lines.push(format!("{}{}{}", pre, tape.pick(&["a", "b c", "é", "", "x=1;", "// no comment"]), post));
+            }
+            return repl_string_check(&lines);
+        }
         let mode = tape.weighted(&[4, 4, 3]);
         match mode {
             0 => {
@@ -497,6 +508,10 @@ impl Property for C11 {
         vec![("corpus-relayout", 1.0), ("string-literal", 1.0)]
     }
     fn run_text(&mut self, text: &str) -> Outcome {
+        if let Some(rest) = text.strip_prefix("REPL-STRING\n") {
+            let lines: Vec<String> = rest.split('\n').map(|l| l.to_string()).collect();
+            return repl_string_check(&lines);
+        }
         // replay of a saved source text: tokens, positions, and the value of every
         // `let <name> = "<literal>";` it binds
         let mut o = Outcome::pass(text.to_string());
@@ -535,4 +550,31 @@ impl Property for C11 {
 #[allow(dead_code)]
 fn key_of(s: &str) -> u64 {
     fnv(s.as_bytes())
+}
+
+/// A string literal typed over several physical lines into `ucg repl` keeps every character,
+/// blanks next to the line breaks included: it equals the one-line literal with `\n` escapes.
+fn repl_string_check(lines: &[String]) -> Outcome {
+    let body = lines.join("\n");
+    let one_line = crate::reflex::quote(&body);
+    let script = format!("let s = \"{}\";\ns == {};\n", body, one_line);
+    let mut o = Outcome::pass(format!("[ucg repl]\n{}", script));
+    o.key = fnv(script.as_bytes());
+    o.portable = Some(format!("REPL-STRING\n{}", body));
+    o.class("repl-multi-line-string");
+    o.nontrivial = true;
+    let dir = crate::ucgrun::new_scratch_dir("c11repl");
+    let r = crate::cli::run_repl(&script, vec![], true, &dir, &dir);
+    let _ = std::fs::remove_dir_all(&dir);
+    if r.timed_out {
+        o.verdict = Verdict::Discard("watchdog: ucg repl did not finish within 60 s".into());
+        return o;
+    }
+    let out = crate::cli::repl_lines(&r);
+    match out.last().map(|l| l.trim()) {
+        Some("true") => {}
+        Some("false") => o.fail("C11/repl-string-value", format!("the literal typed over {} lines does not equal {}\nsession:\n{}\noutput:\n{}", lines.len(), one_line, script, out.join("\n"))),
+        _ => o.class("repl-output-unrecognised"),
+    }
+    o
 }
